@@ -9,6 +9,7 @@ import AiutiVerif.FileLock.SmallDrive
 import AiutiVerif.Cache.KeysDrive
 import AiutiVerif.Bridge.Drive
 import AiutiVerif.CrossLoop.Drive
+import AiutiVerif.Cache.Drive
 /-!
 Model driver: reads one case per line on stdin (`<component> key=value …`), prints the
 model's answer on one line.  Imports `Model`/`Drive` files only (never a proof file).
@@ -30,6 +31,7 @@ def answer (line : String) : String :=
     else if comp == "ckey" then Cache.drive fs
     else if comp == "bridge" then Bridge.drive fs
     else if comp == "xloop" then CrossLoop.drive fs
+    else if comp == "cachelts" then Cache.LTS.drive fs
     else if comp == "ping" then "pong"
     else "bad-component"
   | [] => "bad-component"
